@@ -20,6 +20,9 @@ enum Msg {
     Call(RpcReplyPort<u64>),
 }
 
+#[cfg(feature = "cluster")]
+impl ractor::Message for Msg {}
+
 enum Cmd {
     Join(String),
     Monitor(String),
